@@ -1,7 +1,10 @@
 CLAIMED = {
+ "C17": ("Each stateless limit middleware base (max filters, max limit, sub-id length, event tags, content length, created_at lower/upper/window, allow/deny filter) is proved, for all limit values and all messages, to forward the message unchanged iff it respects the limit and otherwise to answer with exactly one rejecting OK (event id) / CLOSED (subscription id) and forward nothing; server messages pass unchanged; the NIP-11 chain equals the composition of exactly the middlewares whose limit is non-zero (identity without document or limitation block).",
+         "Assumes: clock read once per activation (ghost nowNs), created_at limits within +-9223372036 s (no int64 overflow of seconds*1e9), New*Middleware constructors are functions of their argument (trusted), NewSimpleMiddleware goroutine plumbing (not under contract), allow/deny matcher meaning abstract (C02).",
+         "DESIGN.md §6 C17"),
  "C11": ("Every field validator of the admission gate (hex strings, id/pubkey/sig length, kind range, tag shape) is proved equal to the NIP-01 predicate for all inputs (both directions: no false rejection, no unsound acceptance); loops are cut by inductive invariants, no bound.",
          "Assumes the UTF-8 decoding contract of Go's range-over-string and solver soundness. Text-level parsing (regexp, encoding/json) is outside these contracts.",
          "DESIGN.md §6 C11"),
 }
 _pending = "no contract-based check has been built for this property yet in this task (work in progress); not claimed rather than claimed with a weaker technique"
-NOT_APPLICABLE = {k: _pending for k in ["C01","C02","C03","C04","C05","C06","C07","C08","C09","C10","C12","C13","C14","C15","C16","C17","C18","C19","C20"]}
+NOT_APPLICABLE = {k: _pending for k in ["C01","C02","C03","C04","C05","C06","C07","C08","C09","C10","C12","C13","C14","C15","C16","C18","C19","C20"]}
